@@ -1133,6 +1133,31 @@ theorem json_key_iff (named numbered : Bool) (order σ₁ σ₂ : List (Bytes ×
     sameShown_iff, objText_eq_iff]
   exact viewMembers_canon_iff named numbered order i1 i2 l1 l2 hnd
 
+/-- `json_key_iff` for a table as the regex wrapper builds it from `SubexpNames()`, in any two iteration orders of
+the map: no hypothesis on group numbers or on distinctness is left. -/
+theorem json_key_iff_regex (named numbered : Bool) (names : List Bytes) (σ₁ σ₂ : List (Bytes × Int)) (i1 i2 : List Int)
+    (l1 l2 out1 out2 : Bytes) (hσ₁ : σ₁.Perm (regexNameTable names)) (hσ₂ : σ₂.Perm (regexNameTable names))
+    (hn : (names.length : Int) ≤ maxInt64) (hl1 : (i1.length : Int) ≤ maxInt64) (hl2 : (i2.length : Int) ≤ maxInt64)
+    (h1 : json named numbered σ₁ i1 l1 = .ok out1) (h2 : json named numbered σ₂ i2 l2 = .ok out2) :
+    out1 = out2 ↔ sameShown named numbered (regexNameTable names) i1 l1 i2 l2 = true :=
+  (json_key_iff named numbered (regexNameTable names) σ₁ σ₂ i1 i2 l1 l2 out1 out2 hσ₁ hσ₂
+    (regex_typed names _ i1 (List.Perm.refl _) hn hl1).1 (regex_typed names _ i2 (List.Perm.refl _) hn hl2).1
+    (regexNameTable_nodup names) h1 h2).1
+
+/-- **The boundary of `json_key_iff`, kernel-checked**: what IS merged under one key.  Two different lines whose
+only difference is the letter case of a boolean word get the same `{.}` text; a group that did not take part in the
+match and one that matched the empty text get the same `{#}` text (and so do index slices of different length
+whose extra groups are absent).  Everything else is told apart – e.g. `1` / `1.0` / `01`, `true` / `true `. -/
+theorem key_boundary_witnesses :
+    (json true false [(lit "ok", 1)] [0, 4, 0, 4] (lit "TRUE")).toOption =
+      (json true false [(lit "ok", 1)] [0, 4, 0, 4] (lit "true")).toOption ∧
+    (json false true [] [0, 1, -1, -1] (lit "a")).toOption = (json false true [] [0, 1, 1, 1] (lit "a")).toOption ∧
+    (json false true [] [0, 1, -1, -1, -1, -1] (lit "a")).toOption = (json false true [] [0, 1] (lit "a")).toOption ∧
+    (json false true [] [0, 1] (lit "1")).toOption ≠ (json false true [] [0, 3] (lit "1.0")).toOption ∧
+    (json false true [] [0, 1] (lit "1")).toOption ≠ (json false true [] [0, 2] (lit "01")).toOption ∧
+    (json false true [] [0, 4] (lit "true")).toOption ≠ (json false true [] [0, 5] (lit "true ")).toOption := by
+  decide +kernel
+
 /-- The same for `rare expression` (every value a string, nothing inferred): the text determines the members
 EXACTLY – names and values, byte for byte.  (Not the arguments: `-d x` and `-k 0=x` both give `{"0": "x"}`.) -/
 theorem special_text_iff_members (d1 d2 : List Bytes) (o1 o2 : List (Bytes × Bytes)) :
